@@ -9,6 +9,7 @@
 #include "aesmode.h"
 #include "aes.h"
 #include "base64.h"
+#include "getval.h"
 #include <stdio.h>
 #include <stdlib.h>
 #include <string.h>
@@ -306,6 +307,51 @@ static std::string op_pipe(const std::vector<std::string> &a)
   return "OK " + hex(out.data);
 }
 
+// ---- the option-driven front end, in process (what main.cpp does after argc > 1) ----
+// cli OUTPATH|- ARG ARG ...   -> "RC <exit status> out=<hex of OUTPATH after the call>"
+static std::vector<std::string> split(const std::string &s, char sep);
+static std::string op_cli(const std::vector<std::string> &a)
+{
+  std::vector<std::string> args(a.begin() + 2, a.end());
+  std::vector<char *> argv;
+  std::string prog = "Wencry";
+  argv.push_back((char *)prog.c_str());
+  for (auto &x : args)
+    argv.push_back((char *)x.c_str());
+  argv.push_back(NULL);
+  int argc = (int)argv.size() - 1;
+  int rc;
+  unsigned char *vals = get_v_opt(argc, argv.data());
+  if (vals == NULL)
+    rc = 1;
+  else
+  {
+    vpak_t *v = (vpak_t *)vals;
+    if (v->mode == 'V' || v->mode == 'h')
+      rc = 0;
+    else
+    {
+      Settings settings(v->ctype, v->htype, v->no_echo);
+      bool flag = false;
+      runcrypt runner(v->fp, v->out, v->key, settings);
+      if (v->mode == 'e' || v->mode == 'E')
+        flag = runner.execute_encrypt(v->size, v->r_buf);
+      else if (v->mode == 'd' || v->mode == 'D')
+        flag = runner.execute_decrypt(v->size);
+      else if (v->mode == 'v')
+        flag = runner.execute_verify(v->size);
+      rc = flag ? 0 : 255;
+    }
+  }
+  std::string r = "RC " + std::to_string(rc);
+  if (a[1] != "-")
+  {
+    bytes o = read_file(a[1]);
+    r += " outlen=" + std::to_string(o.size()) + " out=" + hex(o);
+  }
+  return r;
+}
+
 static std::vector<std::string> split(const std::string &s, char sep)
 {
   std::vector<std::string> v;
@@ -327,6 +373,8 @@ static std::string run_fileop(const std::vector<std::string> &a)
     return op_decver(a, false);
   if (a[0] == "pipe")
     return op_pipe(a);
+  if (a[0] == "cli")
+    return op_cli(a);
   return "?";
 }
 
@@ -579,7 +627,7 @@ int main(int argc, char **argv)
       if (a.empty())
         continue;
     }
-    if (a[0] == "enc" || a[0] == "dec" || a[0] == "ver" || a[0] == "pipe")
+    if (a[0] == "enc" || a[0] == "dec" || a[0] == "ver" || a[0] == "pipe" || a[0] == "cli")
     {
       isolated(id, {a});
     }
